@@ -529,7 +529,8 @@ def evaluate(chk, cases, name, with_oracle=True, with_model=True):
     if with_model:
         started = time.time()
         model = chk.coq_eval(name, ['Lib.Ivl', 'Model.BpReasm'], [coq_case(case) for case in cases],
-                             '(BpReasm.run_render BpReasm.init)', chunk=max(40, -(-len(cases) // 16)))
+                             '(BpReasm.run_render BpReasm.init)', chunk=min(400, max(40, -(-len(cases) // 16))),
+                             timeout=900 if chk.quick() else 3000)
         PHASES.append(('model:' + name, round(time.time() - started, 1)))
     diffs = []
     for (pos, (case, obs)) in enumerate(zip(cases, impl)):
